@@ -9,7 +9,7 @@ from ..runner import Part
 
 PROPERTY = 'C17'
 LEVEL = 'exploration'
-RULE = ('keys: k deterministic 2048-bit keys from a seeded Miller-Rabin prime search (written as PKCS#8 PEM) + k fresh keygen() keys, every key written to disk and re-loaded through '
+RULE = ('keys (chosen so that both values of the top bit of n0inv occur): k deterministic 2048-bit keys from a seeded Miller-Rabin prime search (written as PKCS#8 PEM) + k fresh keygen() keys, every key written to disk and re-loaded through '
         'write_public_keyfile / the signer constructors; tokens: all-zero, all-0xff, the 20 single-byte-set and 160 single-bit-set tokens, tokens with 1..19 leading zero bytes, seeded random ones, and per key two tokens whose correct signature starts with a zero byte (found with the reference computation) '
         'ones (~230 shapes); signers: CryptographySigner, PycryptodomeAuthSigner, PythonRSASigner; a history in which the key pair at one path is regenerated and re-loaded three times in one process; oracle: pure-integer RSA check s^e mod n == 00 01 FF..FF 00 || DER(SHA-1 DigestInfo) || token, '
         'cryptography\'s verifier with Prehashed(SHA1), equality of the three signers\' outputs (PKCS#1 v1.5 is deterministic), and an independent decoder of the 524-byte Android RSAPublicKey '
@@ -257,10 +257,22 @@ def parts(tier):
         seeded_key(i, p)
         keys.append(p)
     from adb_shell.auth.keygen import keygen
+
+    def top_bit(path):
+        n = load_numbers(path)[1]
+        return ((-pow(n, -1, 1 << 32)) % (1 << 32)) >> 31
     for i in range(k):
         p = os.path.join(base, 'fresh%d' % i)
         keygen(p)
         keys.append(p)
+    # both values of the top bit of n0inv must occur among the keys (an inverse computed modulo 2^31 is right for half of all keys)
+    extra = 0
+    while len({top_bit(p) for p in keys}) < 2 and extra < 12:
+        p = os.path.join(base, 'fresh-extra%d' % extra)
+        keygen(p)
+        extra += 1
+        if top_bit(p) not in {top_bit(q) for q in keys}:
+            keys.append(p)
     nt = len(tokens())
     step = 12
     sc = [{'key': p, 'signer': s, 'lo': lo, 'hi': min(nt, lo + step)} for p in keys for s in SIGNERS for lo in range(0, nt, step)]
